@@ -90,7 +90,11 @@ def g1(ctx):
         ctx.instance('%s %s' % (key, m))
         if m == 'load':
             continue
-        fn = key[len(SIGK):] if key.startswith(SIGK) else None
+        os_ = fam.owners(ctx, key)
+        okey = key
+        if len(os_) == 1:
+            okey = next(iter(os_))
+        fn = okey[len(SIGK):] if okey.startswith(SIGK) else None
         if fn == 'wait' and m in ('compare_exchange', 'compare_exchange_weak'):
             a = op['args']
             if not (is_const(a[0], LOCKED) and is_const(a[1], LOCKED_STARVATION)):
@@ -113,7 +117,7 @@ def g1(ctx):
                 if s['k'] == 'assign' and s['rv']['k'] == 'agg' and s['rv'].get('ak') == 'adt' and canon(s['rv']['name']) == 'signal::Signal':
                     ctx.instance('%s constructs Signal' % key)
                     ctx.oblige(1)
-                    if not key.startswith(SIGK + 'new_'):
+                    if not all(o.startswith(SIGK + 'new_') for o in fam.owners(ctx, key)):
                         ctx.violate(key, None, 'Signal constructed outside its new_* constructors', at=s.get('at'), sig='construct')
     for nm in ('new_sync',) + (('new_async', 'new_async_ptr') if ctx.has_async() else ()):
         b = ctx.body(SIGK + nm)
@@ -428,17 +432,43 @@ def g6(ctx):
                         ctx.violate(b.key, p, 'wait_timeout compares the clock with something other than its deadline argument')
         if nm == 'wait':
             # park inside a cycle that re-loads the state; thread handle stored before the CAS
-            parks = [bb for bb, t in b.all_calls() if t.get('fn') and canon(t['fn']['path']) == 'std::thread::park']
+            # park may live in `wait` itself or in a private helper it is split into
+            cands = [b]
+            seenb = {b.key}
+            wk = [b]
+            while wk:
+                cur = wk.pop()
+                for bb_, t_ in cur.all_calls():
+                    fn_ = t_.get('fn')
+                    if fn_ and fn_.get('local'):
+                        cb = ctx.facts.bodies.get(fn_['path'])
+                        if cb is not None and cb.key not in seenb and fam.is_delegate(ctx.facts, cb.key):
+                            seenb.add(cb.key)
+                            cands.append(cb)
+                            wk.append(cb)
             ctx.oblige(1, sample='wait: park in a loop that re-loads the state')
-            if not parks:
+            nparks = 0
+            for pbody in cands:
+                parks = [bb for bb, t in pbody.all_calls() if t.get('fn') and canon(t['fn']['path']) == 'std::thread::park']
+                nparks += len(parks)
+                comps = pbody.sccs()
+                for pb in parks:
+                    comp = [c for c in comps if pb in c][0]
+                    cyc = len(comp) > 1 or pb in pbody.succs(pb)
+                    loads = []
+                    for bb, t in pbody.all_calls():
+                        if bb not in comp or not t.get('fn'):
+                            continue
+                        nm_ = canon(t['fn']['path'])
+                        if atomic_method(nm_) == 'load':
+                            loads.append(bb)
+                        cb = ctx.facts.bodies.get(t['fn']['path'])
+                        if cb is not None and fam.is_delegate(ctx.facts, cb.key) and any(atomic_method(n_) == 'load' for n_ in cb.callee_names()):
+                            loads.append(bb)  # the re-load sits in a private helper called from the loop
+                    if not cyc or not loads:
+                        ctx.violate(b.key, None, 'park() is not inside a loop that re-loads the state: a spurious wake-up returns with the peer still owning the frame', at=pbody.blocks[pb]['term'].get('at'), sig='park-loop')
+            if nparks == 0:
                 ctx.violate(b.key, None, 'wait never parks (anchor missing)', sig='no-park')
-            comps = b.sccs()
-            for pb in parks:
-                comp = [c for c in comps if pb in c][0]
-                cyc = len(comp) > 1 or pb in b.succs(pb)
-                loads = [bb for bb, t in b.all_calls() if bb in comp and t.get('fn') and atomic_method(canon(t['fn']['path'])) == 'load']
-                if not cyc or not loads:
-                    ctx.violate(b.key, None, 'park() is not inside a loop that re-loads the state: a spurious wake-up returns with the peer still owning the frame', at=b.blocks[pb]['term'].get('at'), sig='park-loop')
             for p, evs in ret_paths(ctx, b):
                 ops = atomic_ops(p)
                 cas = [o for o in ops if o['m'].startswith('compare_exchange')]
@@ -468,13 +498,13 @@ def g7(ctx):
                 if rv['k'] == 'discr' and 'KanalWaker' in rv['p'].get('ty', ''):
                     ctx.oblige(1)
                     ctx.instance('%s reads waker kind' % key)
-                    if key not in readers_ok:
+                    if not fam.allowed_for(ctx, key, readers_ok):
                         ctx.violate(key, None, 'waker kind inspected outside wake/wait/will_wake: a peer must not need to know the other side\'s flavour', at=s.get('at'), sig='kind-reader')
                 lp = s['lhs']['p']
                 if lp and isinstance(lp[-1], dict) and lp[-1].get('f') == 'waker' and 'KanalWaker' in s['lhs'].get('ty', ''):
                     ctx.oblige(1)
                     ctx.instance('%s writes Signal.waker' % key)
-                    if key not in writers_ok:
+                    if not fam.allowed_for(ctx, key, writers_ok):
                         ctx.violate(key, None, 'Signal.waker written outside constructors / wait / register_waker', at=s.get('at'), sig='waker-writer')
     # the Sync cell (UnsafeCell<Option<Thread>>) is written only in wait: UnsafeCell::get users
     for key, b in ctx.facts.bodies.items():
@@ -482,7 +512,7 @@ def g7(ctx):
             if t.get('fn') and canon(t['fn']['path']) == 'std::cell::UnsafeCell::get' and any('Thread' in a for a in t['fn']['args']):
                 ctx.oblige(1)
                 ctx.instance('%s accesses the thread-handle cell' % key)
-                if key not in (SIGK + 'wait', SIGK + 'wake'):
+                if not fam.allowed_for(ctx, key, (SIGK + 'wait', SIGK + 'wake')):
                     ctx.violate(key, None, 'thread-handle cell accessed outside wait/wake', at=t.get('at'), sig='cell-access')
 
 
